@@ -91,18 +91,20 @@ def leaf_values_json(v, out):
 
 
 def strict_tests(values):
+    """converter.test(value, [tp], strict=True) and (..., strict=False) for tp in converter.explicit_types()."""
     from xsdata.formats.converter import converter
     tps = converter.explicit_types()
     out = {}
     for v in sorted(values):
         if v == "":
             continue
-        row = []
+        strict, lax = [], []
         for tp in tps:
             with warnings.catch_warnings():
                 warnings.simplefilter("ignore")
-                row.append(bool(converter.test(v, [tp], strict=True)))
-        out[v] = row
+                strict.append(bool(converter.test(v, [tp], strict=True)))
+                lax.append(bool(converter.test(v, [tp])))
+        out[v] = {"strict": strict, "lax": lax}
     return out
 
 
@@ -117,19 +119,25 @@ def type_name(t):
     return getattr(t, "__name__", None) or repr(t)
 
 
+def type_view(t):
+    import dataclasses
+    return {"name": type_name(t), "dc": bool(isinstance(t, type) and dataclasses.is_dataclass(t)),
+            "qual": getattr(t, "__qualname__", None) or repr(t)}
+
+
 def var_view(v):
     d = {"name": v.name, "qname": v.qname, "index": v.index, "kind": kind_of(v), "list": bool(v.list_element),
          "tokens": bool(v.tokens), "required": bool(v.required), "init": bool(v.init), "mixed": bool(v.mixed),
          "nillable": bool(v.nillable), "namespaces": sorted(x or "" for x in (v.namespaces or ())), "sequence": v.sequence,
-         "types": [type_name(t) for t in v.types], "clazz": type_name(v.clazz) if v.clazz else None,
-         "any_type": bool(v.any_type)}
+         "types": [type_view(t) for t in v.types], "clazz": type_view(v.clazz)["qual"] if v.clazz else None,
+         "any_type": bool(v.any_type), "local_name": v.local_name}
     dv = v.default() if callable(v.default) else v.default
     if isinstance(dv, (list, tuple, dict)):
         dv = None
     d["default"] = None if dv is None else str(dv)
     d["enum"] = None
     d["choices"] = [{"qname": c.qname, "list": bool(c.list_element), "index": c.index, "wild": bool(c.is_wildcard),
-                     "types": [type_name(t) for t in c.types]}
+                     "types": [type_view(t) for t in c.types]}
                     for c in v.elements.values()] + [{"qname": None, "list": bool(c.list_element), "index": c.index,
                                                      "wild": True, "types": []} for c in v.wildcards]
     return d
@@ -143,8 +151,12 @@ def field_has_default(clazz, name):
     return True
 
 
-def meta_view(ctx, clazz):
-    m = ctx.build(clazz)
+def meta_view(clazz, parent_ns):
+    """Binding metadata of `clazz` as the parser fetches it below an element whose class namespace is
+    `parent_ns` (ElementNode.build_element_node: context.fetch(clazz, self.meta.namespace)); a fresh context
+    per build, so that the answer does not depend on the cache (that is property C14's subject)."""
+    from xsdata.formats.dataclass.context import XmlContext
+    m = XmlContext().build(clazz, parent_ns)
     evars, avars = [], []
     for v in m.get_element_vars():
         d = var_view(v)
@@ -154,8 +166,33 @@ def meta_view(ctx, clazz):
         d = var_view(v)
         d["py_required"] = not field_has_default(clazz, v.name)
         avars.append(d)
-    return {"qname": m.qname, "class": clazz.__qualname__, "target_qname": m.target_qname, "nillable": bool(m.nillable),
-            "mixed_content": bool(m.mixed_content), "elements": evars, "attributes": avars}
+    return {"qname": m.qname, "class": clazz.__qualname__, "parent_ns": parent_ns, "namespace": m.namespace,
+            "target_qname": m.target_qname, "nillable": bool(m.nillable),
+            "mixed_content": bool(m.mixed_content), "elements": evars, "attributes": avars}, m
+
+
+def reachable_metas(root):
+    """[(view)] for every (dataclass, parent namespace) pair the parser can reach from the root class; each
+    element var view gets "targets": indices of the metadata of its dataclass types under this class's namespace."""
+    import dataclasses
+    out, index, todo = [], {}, [(root, None)]
+    index[(root.__qualname__, None)] = 0
+    out.append(None)
+    while todo:
+        clazz, pns = todo.pop(0)
+        view, m = meta_view(clazz, pns)
+        out[index[(clazz.__qualname__, pns)]] = view
+        for d, v in zip(view["elements"], m.get_element_vars()):
+            d["targets"] = []
+            for t in v.types:
+                if isinstance(t, type) and dataclasses.is_dataclass(t):
+                    key = (t.__qualname__, m.namespace)
+                    if key not in index:
+                        index[key] = len(out)
+                        out.append(None)
+                        todo.append((t, m.namespace))
+                    d["targets"].append(index[key])
+    return out
 
 
 # ------------------------------------------------------------------ hidden model -> samples
@@ -279,9 +316,8 @@ def run_set(s):
         if r["status"] == "ok" and run._trace["import_ok"]:
             try:
                 root = find_root(run, s, trees)
-                ctx = XmlContext()
-                for c in all_dataclasses(run):
-                    metas.append(meta_view(ctx, c))
+                if root is not None:
+                    metas = reachable_metas(root)
             except Exception as e:  # noqa
                 import traceback
                 out["gen"]["status"] = "bind_error"
